@@ -181,7 +181,8 @@ pub fn agg_model(op: AggOp, x: &[X], y: &[X]) -> Vec<Exp> {
             match op {
                 NVSumFilter => vec![e(k as f64), e(stats::sum(&sel))],
                 NSumFilter => vec![if k == 0 { Exp::NULL } else { e(stats::sum(&sel)) }],
-                VMeanFilter(mp) => vec![if k < mp.max(1) { Exp::NULL } else { Exp::of(stats::mean(&sel)) }],
+                // (an infinite observation makes the mean infinite, not null)
+                VMeanFilter(mp) => vec![if k < mp.max(1) { Exp::NULL } else { stats::mean(&sel).map_or(Exp::NULL, |m| if m.is_nan() { Exp::NULL } else { e(m) }) }],
                 _ => unreachable!(),
             }
         }
